@@ -45,7 +45,7 @@ RULE = (
     "sub-batch leaf OR a strict subset of the float leaves requires grad OR nesting >= 2). Distinct by (class path, entry point, "
     "requires-grad pattern, expansion pattern, settings cell, rhs / lhs shape, index kind, sum dim, U/V kind)."
 )
-BUDGET = {"quick": 2600, "thorough": 4000}
+BUDGET = {"quick": 2600, "thorough": 2500}
 ASSUMPTIONS = [
     "float64 only; Zero / Permutation operators are not generated (no float leaves; ZeroLinearOperator declares backward impossible)",
     "stochastic paths (Lanczos-quadrature logdet) are out of scope: logdet / inv_quad_logdet(logdet=True) run with the default "
@@ -1078,7 +1078,7 @@ def check(case):
     inputs = [t for _, t in b.leaves]
     extra = [h for _, h in hooks]
     if loss_ref.requires_grad:
-        allg = torch.autograd.grad(loss_ref, inputs + extra, allow_unused=True)
+        allg = torch.autograd.grad(loss_ref, inputs + extra, allow_unused=True, retain_graph=True)
     else:
         allg = [None] * (len(inputs) + len(extra))
     g_ref = [_zeros_if_none(g, t) for g, t in zip(allg[: len(inputs)], inputs)]
@@ -1088,6 +1088,11 @@ def check(case):
             return done("reference_nonfinite")
     lossmag = float(sum((W.abs() * o.detach().abs()).sum() for W, o in zip(Ws, routs)))
     S = _scales(b, hooks, G_hooks, g_ref, lossmag)
+    # sign-free cotangent: contributions that cancel exactly because of the SIGNS of W (e.g. identical batch members of a
+    # repeated / expanded parameter weighted +w and -w) are sums of terms of this magnitude
+    if loss_ref.requires_grad and inputs:
+        g_abs = torch.autograd.grad(sum((W.abs() * o).sum() for W, o in zip(Ws, routs)), inputs, allow_unused=True)
+        S = [s_ + (ga.abs() + ga.abs().max() if ga is not None and ga.numel() and bool(torch.isfinite(ga).all()) else 0.0) for s_, ga in zip(S, g_abs)]
     symlits, ties = _sym_structure(case)
     trimask = _tri_masks(recs)
     pos = {id(l): i for i, (l, _) in enumerate(b.leaves)}
@@ -1370,17 +1375,16 @@ AUTOGRAD_DERIVATIVE = {"Cat", "Chol", "Kronecker", "KroneckerTri", "KroneckerDia
 
 
 def _batched_interp_under_autograd(recs, only_rg=True):
-    """Interpolated nodes lying below a class whose _bilinear_derivative is the default (autograd through its own _matmul)
-    whose interpolation values are batched, or contain an exact zero (dropped from the sparse interpolation matrix)."""
+    """Interpolated nodes whose interpolation values require grad, lying below a class whose _bilinear_derivative is the default
+    (autograd through its own _matmul).  (Only an unbatched Interpolated without zero values that no ancestor batch-expands
+    keeps its gradient there.)"""
     found = []
 
     def visit(node, below):
         op = node["op"]
         if op == "Interpolated" and below:
-            for k in ("lv", "rv"):
-                if (not only_rg or node[k].get("rg")) and (len(L.shape_of(node[k])) > 2 or bool((L.value(node[k]) == 0).any())):
-                    found.append(node)
-                    break
+            if not only_rg or node["lv"].get("rg") or node["rv"].get("rg"):
+                found.append(node)
         nxt = below or op in AUTOGRAD_DERIVATIVE
         if op == "BatchRepeat":
             shp = refmodel.shape(node)
@@ -1433,7 +1437,31 @@ def _has_kron_added_diag(r):
     return any(n["op"] in ("KroneckerAddedDiag", "SumKronecker") for n in R.walk(r))
 
 
+def _symeig_root_repeated(case):
+    """An operand that is root-decomposed through symeig (Cholesky is unavailable with a KeOps component) and has a repeated
+    eigenvalue: torch.linalg.eigh's eigenvector gradient is infinite there."""
+    recs = [case["recipe"]] + ([case["recipe2"]] if "recipe2" in case else [])
+    cands = []
+    if case["ep"] == "op_mul":
+        cands += recs
+    if case["ep"] == "root_decomposition":
+        cands.append(case["recipe"])
+    for x in recs:
+        for n in R.walk(x):
+            if n["op"] == "Mul":
+                cands += n["args"]
+    for c in cands:
+        if any(n["op"] == "KeOps" for n in R.walk(c)):
+            M = refmodel.dense(c)
+            if M.shape[-1] == M.shape[-2] and M.shape[-1] > 1:
+                w = torch.linalg.eigvalsh(0.5 * (M + M.mT))
+                if bool(((w[..., 1:] - w[..., :-1]) <= 1e-9 * w.abs().max(dim=-1, keepdim=True)[0]).any()):
+                    return True
+    return False
+
+
 TRIGGERS = {
+    "symeig_root_repeated_eigenvalues": _symeig_root_repeated,
     "lanczos_diagonalization": lambda case: case["cell"].get("max_cholesky_size") == 0 and _has_kron_added_diag(case["recipe"]),
     "singular_kronecker_factor_symeig": lambda case: bool(_singular_kron_factors([case["recipe"]] + ([case["recipe2"]] if "recipe2" in case else []))),
     "batched_interp_values_under_autograd_derivative": lambda case: bool(
